@@ -164,7 +164,9 @@ func checkC01(p *Program, r *Report) {
 		"what EncodeAddress hands to the packer / Base58Check (address-type constant, number of hash bytes that arrive after every re-slice) is accepted by the " +
 		"packer, loses no byte of the type's hash array, and is mapped back by a reachable decode arm of DecodeAddress to the same Go type; version bytes agree " +
 		"between packer and classifier. C01.membership: IsForNet tests the Params field the constructors stored. C01.hashing: script-taking constructors hash " +
-		"with RIPEMD160(SHA256(·)) for 20-byte kinds and SHA256(SHA256(·)) for P2SH32. Not decided: string equality for every hash (value level), convertBits " +
+		"with RIPEMD160(SHA256(·)) for 20-byte kinds and SHA256(SHA256(·)) for P2SH32 and reject no script themselves. C01.stages: in DecodeAddress a return " +
+		"before the public-key and Base58Check stages happens only behind err == nil of the CashAddr decoder (or the entry length guard), so the CashAddr stage " +
+		"never gives a verdict on a legacy or public-key string. Not decided: string equality for every hash (value level), convertBits " +
 		"arithmetic, Base58 radix conversion."
 	r.Trusted = []string{"CashAddr / Base58Check specification constants", "bchd chaincfg.Params field names (external API)"}
 	root := p.Pkg("")
